@@ -198,13 +198,24 @@ func verifyChain(certs []*x509.Certificate, trc *TRC, now time.Time) error {
 	if err != nil {
 		return serrors.Wrap("failed to extract root certs", err, "trc", trc.ID)
 	}
-	_, err = certs[0].Verify(x509.VerifyOptions{
+	paths, err := certs[0].Verify(x509.VerifyOptions{
 		Intermediates: intPool,
 		Roots:         rootPool,
 		KeyUsages:     certs[0].ExtKeyUsage,
 		CurrentTime:   now,
 	})
-	return err
+	if err != nil {
+		return err
+	}
+	// The AS certificate must be verifiable through the CA certificate of the
+	// chain. A path that leads directly from the AS certificate to a root
+	// certificate does not authenticate the CA certificate at all.
+	for _, path := range paths {
+		if len(path) == 3 && path[1].Equal(certs[1]) {
+			return nil
+		}
+	}
+	return serrors.New("AS certificate not issued by the CA certificate of the chain")
 }
 
 // ValidateChain validates that a slice of SCION certificates can be
